@@ -158,6 +158,16 @@ class Ctx(object):
             return True
         if z3.is_false(cond):
             return False
+        it = getattr(self, 'interp', None)
+        if it is not None and it.pure_depth > 0:
+            # inside the element closure of a symbolic-length comprehension the condition is about the BOUND element index: the
+            # closure is evaluated again for other indices, so a path decision taken here would silently be reused for them.  Only
+            # a condition that is decided for every index (valid or unsatisfiable under the path condition) may pass
+            if not self.feasible(z3.Not(cond)):
+                return True
+            if not self.feasible(cond):
+                return False
+            raise Unsupported("a branch on the element of a symbolic-length comprehension (%s)" % where)
         pos = len(self.taken)
         if pos < len(self.prefix):
             d = self.prefix[pos]
